@@ -95,7 +95,7 @@ def make_judges(ctx):
             elif isinstance(y, (int, np.integer)) and not isinstance(y, bool):
                 ya = np.array(int(y) % m, dtype=object)
                 ykind = ('-mask' if y < 0 else '+mask') + ('.np' if isinstance(y, np.integer) else '')
-            elif isinstance(y, (list, np.ndarray)) and np.asarray(y).size > 0 and np.asarray(y).dtype.kind in 'iuO' \
+            elif isinstance(y, (list, tuple, np.ndarray)) and np.asarray(y, dtype=object).size > 0 \
                     and all(isinstance(v, (int, np.integer)) and not isinstance(v, bool) for v in np.asarray(y, dtype=object).ravel().tolist()):
                 yo = np.asarray(y, dtype=object)
                 ya = np.empty(yo.size, dtype=object)
@@ -157,7 +157,7 @@ def make_judges(ctx):
 
 
 def floors(tier):
-    return [('not', '-')] + [(op, yk) for op in ('and', 'or', 'xor') for yk in ('Fxp', '+mask', '-mask', 'masks')] + [('mismatch',), ('mismatch-numpy',), ('broadcast-table',)] + \
+    return [('not', '-')] + [(op, yk) for op in ('and', 'or', 'xor') for yk in ('Fxp', '+mask', '-mask', 'masks')] + [('mismatch',), ('mismatch-numpy',), ('broadcast-table',), ('mixed-magnitude-mask-list',), ('inplace-indexed', '53-63'), ('inplace-indexed', '64'), ('inplace-indexed', '65-128')] + \
            [('numpy', op) for op in ('and', 'or', 'xor', 'not')] + [('arrays', op, k) for op in ('and', 'or', 'xor') for k in ((True, True), (True, False), (False, True))] + [('arrays', 'not', (True, False))] + \
            [('wide-array', w_, sg) for w_ in (63, 64, 65) for sg in (True, False)]
 
@@ -349,6 +349,16 @@ def run_case(case, ctx):
             _try(lambda: xa_ & mk)
             _try(lambda: mk | xa_)
             _try(lambda: xa_ ^ [mk, 1, -1])
+            _try(lambda: xa_ & (mk, 1, 3))                  # a tuple of masks
+            _try(lambda: (1, mk, -1) | xa_)
+            if w >= 64:
+                # lists of masks mixing integers below and above 2^63 (numpy would make doubles of such a list)
+                big = (1 << 63) + rng.choice([1, 5, (1 << 20) + 3])
+                _try(lambda: xa_ & [big, 1, -1 if sx else 3])
+                _try(lambda: xa_ | [3, big, 1])
+                _try(lambda: [big, 7, 1] ^ xa_)
+                _try(lambda: xa_ ^ [[big, 1, 2], [1, big, 3]])
+                ctx.floor_hit(('mixed-magnitude-mask-list',))
             _try(lambda: x & ya_)
             _try(lambda: ~xa_[1])
             _try(lambda: xa_[2] | ya_[0])
@@ -360,6 +370,39 @@ def run_case(case, ctx):
         _try(lambda: small & x)
         _try(lambda: small | x)
         _try(lambda: small ^ x)
+    # an element changed in place through its index (x[i] |= m is x[i] = x[i] | m): the word written back is the word computed, every other
+    # element stays; also for words of 54..63 bits that carry fraction bits (codes beyond the precision of a double)
+    if (i // 9) % 3 != 1:      # (independent of the width digit i % 9)
+        cs3 = [a, max(lox, min(hix, code(lox, hix))), hix - 1 if hix > lox else hix]
+        xs_ = _try(lambda: Fxp(np.array(cs3, dtype=object if w >= 63 else None), sx, w, nf, raw=True))
+        if xs_ is not None:
+            m_ = 1 << w
+            j_ = rng.randint(0, 2)
+            mk2 = rng.choice([5, 1, mk])
+            opn = rng.choice(['or', 'and', 'xor'])
+            try:
+                ctx.mon.enabled = False
+                try:
+                    if opn == 'or':
+                        xs_[j_] |= mk2
+                    elif opn == 'and':
+                        xs_[j_] &= mk2
+                    else:
+                        xs_[j_] ^= mk2
+                    xs_[(j_ + 1) % 3] = xs_[(j_ + 1) % 3]
+                    got = [int(v) for v in np.asarray(xs_.val, dtype=object).ravel().tolist()]
+                finally:
+                    ctx.mon.enabled = True
+                pj = cs3[j_] % m_
+                pm = mk2 % m_
+                want = list(cs3)
+                want[j_] = R.from_pattern((pj | pm) if opn == 'or' else ((pj & pm) if opn == 'and' else (pj ^ pm)), sx, w)
+                if got != want:
+                    ctx.violation('inplace_indexed', 'x[%d] %s= %d on %s codes %s left codes %s, expected %s' % (j_, opn, mk2, R.dtype_fxp(sx, w, nf), cs3, got, want))
+                ctx.judged(('inplace-indexed', opn, G.word_class(w), G.frac_class(w, nf), sx), True, None)
+                ctx.floor_hit(('inplace-indexed', G.word_class(w)))
+            except Exception as e:
+                ctx.violation('inplace_indexed_raises', 'x[%d] %s= %d on %s raised %s: %s' % (j_, opn, mk2, R.dtype_fxp(sx, w, nf), type(e).__name__, str(e)[:100]))
     laws(ctx, x, y)
     z = Fxp(1, sy, w + rng.choice([-1, 1]), 0, raw=True)
     _try(lambda: x & z)
